@@ -315,3 +315,244 @@ Proof.
 Qed.
 
 End Leaves.
+
+(* ---------------------------------------------------------------------------------------------- *)
+(* Literal strings, back-references, anchors, capture stacks                                      *)
+(* ---------------------------------------------------------------------------------------------- *)
+Section Leaves2.
+Variable e : env.
+Local Notation n := (tlen e).
+Local Notation e' := (mirror_env e).
+
+Lemma mirror_str_match_app : forall (ev : env) ci a b p,
+  str_match_at ev ci (a ++ b) p = str_match_at ev ci a p && str_match_at ev ci b (p + zlen a).
+Proof.
+  intros ev ci a. induction a as [|c a IH]; intros b p.
+  - cbn [app str_match_at andb]. unfold zlen. cbn [length]. f_equal. lia.
+  - cbn [app str_match_at]. rewrite IH, andb_assoc. do 2 f_equal.
+    unfold zlen. cbn [length]. lia.
+Qed.
+
+Lemma mirror_zlen_rev : forall (A : Type) (l : list A), zlen (rev l) = zlen l.
+Proof. intros A l. unfold zlen. now rewrite rev_length. Qed.
+
+Lemma mirror_zlen_cons : forall (A : Type) (a : A) l, zlen (a :: l) = 1 + zlen l.
+Proof. intros A a l. unfold zlen. cbn [length]. lia. Qed.
+
+Lemma mirror_zlen_nonneg : forall (A : Type) (l : list A), 0 <= zlen l.
+Proof. intros A l. unfold zlen. lia. Qed.
+
+(* the literal [s] at [p, p+|s|) in the text  =  [rev s] at the mirrored interval of the reversed text *)
+Lemma mirror_str_match_at : forall ci s p, 0 <= p -> p + zlen s <= n ->
+  str_match_at e' ci (rev s) (n - p - zlen s) = str_match_at e ci s p.
+Proof.
+  intros ci s. induction s as [|c s IH]; intros p Hp Hle; [reflexivity|].
+  rewrite mirror_zlen_cons in *. pose proof (mirror_zlen_nonneg _ s) as Hs.
+  cbn [rev]. rewrite mirror_str_match_app. cbn [str_match_at]. rewrite andb_true_r.
+  rewrite mirror_zlen_rev.
+  replace (n - p - (1 + zlen s)) with (n - (p + 1) - zlen s) by lia.
+  rewrite IH by lia. rewrite andb_comm. f_equal.
+  rewrite mirror_char_at by lia.
+  replace (n - 1 - (n - (p + 1) - zlen s + zlen s)) with p by lia. reflexivity.
+Qed.
+
+Lemma mirror_sem_multi : forall o str s, 0 <= pos s <= n ->
+  sem_multi e' (flip_opt o) (rev str) (mirror_st e s) = map (mirror_st e) (sem_multi e o str s).
+Proof.
+  intros o str s Hp. unfold sem_multi. cbn [pos mirror_st].
+  rewrite mirror_avail, mirror_zlen_rev, flip_is_rtl, flip_is_ci, mirror_dir.
+  pose proof (mirror_zlen_nonneg _ str) as Hl.
+  destruct (avail e o (pos s) <? zlen str) eqn:E; [reflexivity|].
+  assert (Hst : str_match_at e' (is_ci o) (rev str)
+                  (if negb (is_rtl o) then n - pos s - zlen str else n - pos s)
+                = str_match_at e (is_ci o) str (if is_rtl o then pos s - zlen str else pos s)).
+  { unfold avail in E. destruct (is_rtl o); cbn [negb].
+    - replace (n - pos s) with (n - (pos s - zlen str) - zlen str) by lia.
+      apply mirror_str_match_at; lia.
+    - apply mirror_str_match_at; lia. }
+  rewrite Hst.
+  destruct (str_match_at e (is_ci o) str (if is_rtl o then pos s - zlen str else pos s)); [|reflexivity].
+  cbn [map]. rewrite mirror_with_pos. do 2 f_equal. lia.
+Qed.
+
+Lemma mirror_sem_multi_ok : forall o str s, st_ok e s -> Forall (st_ok e) (sem_multi e o str s).
+Proof.
+  intros o str s Hs. unfold sem_multi. pose proof (mirror_zlen_nonneg _ str) as Hl.
+  destruct (avail e o (pos s) <? zlen str) eqn:E; [constructor|].
+  destruct (str_match_at _ _ _ _); constructor; [|constructor].
+  apply mirror_with_pos_ok; [assumption|].
+  destruct Hs as [Hp _]. unfold avail, dir in *. destruct (is_rtl o); lia.
+Qed.
+
+(* --- back-references --- *)
+Lemma mirror_ref_match_snoc : forall (ev : env) ci len i p,
+  ref_match_at ev ci (S len) i p =
+  ref_match_at ev ci len i p &&
+  (if ci then lower ev (char_at ev (i + Z.of_nat len)) =? lower ev (char_at ev (p + Z.of_nat len))
+   else char_at ev (i + Z.of_nat len) =? char_at ev (p + Z.of_nat len)).
+Proof.
+  intros ev ci len. induction len as [|len IH]; intros i p.
+  - cbn [ref_match_at]. rewrite andb_true_r. cbn [andb Z.of_nat]. now rewrite !Z.add_0_r.
+  - change (ref_match_at ev ci (S (S len)) i p) with
+      ((if ci then lower ev (char_at ev i) =? lower ev (char_at ev p) else char_at ev i =? char_at ev p)
+       && ref_match_at ev ci (S len) (i + 1) (p + 1)).
+    rewrite IH. cbn [ref_match_at]. rewrite andb_assoc.
+    replace (i + 1 + Z.of_nat len) with (i + Z.of_nat (S len)) by lia.
+    replace (p + 1 + Z.of_nat len) with (p + Z.of_nat (S len)) by lia. reflexivity.
+Qed.
+
+Lemma mirror_ref_match_at : forall ci len i p,
+  0 <= i -> i + Z.of_nat len <= n -> 0 <= p -> p + Z.of_nat len <= n ->
+  ref_match_at e' ci len (n - i - Z.of_nat len) (n - p - Z.of_nat len) = ref_match_at e ci len i p.
+Proof.
+  intros ci len. induction len as [|len IH]; intros i p Hi Hil Hp Hpl; [reflexivity|].
+  rewrite (mirror_ref_match_snoc e).
+  cbn [ref_match_at].
+  replace (n - i - Z.of_nat (S len) + 1) with (n - i - Z.of_nat len) by lia.
+  replace (n - p - Z.of_nat (S len) + 1) with (n - p - Z.of_nat len) by lia.
+  rewrite IH by lia. rewrite andb_comm. f_equal.
+  rewrite !mirror_char_at by lia.
+  replace (n - 1 - (n - i - Z.of_nat (S len))) with (i + Z.of_nat len) by lia.
+  replace (n - 1 - (n - p - Z.of_nat (S len))) with (p + Z.of_nat len) by lia.
+  reflexivity.
+Qed.
+
+Lemma mirror_cap_get : forall g c, cap_get g (mirror_caps n c) = map (mirror_span n) (cap_get g c).
+Proof.
+  intros g c. induction c as [|[g' l] c IH]; [reflexivity|].
+  cbn [mirror_caps map cap_get fst snd]. destruct (g =? g'); [reflexivity|]. apply IH.
+Qed.
+
+Lemma mirror_cap_set : forall g l c,
+  cap_set g (map (mirror_span n) l) (mirror_caps n c) = mirror_caps n (cap_set g l c).
+Proof.
+  intros g l c. induction c as [|[g' l'] c IH]; [reflexivity|].
+  cbn [mirror_caps map cap_set fst snd]. destruct (g =? g'); [reflexivity|].
+  cbn [map fst snd]. f_equal. apply IH.
+Qed.
+
+Lemma mirror_cap_push : forall g iv c,
+  cap_push g (mirror_span n iv) (mirror_caps n c) = mirror_caps n (cap_push g iv c).
+Proof.
+  intros g iv c. unfold cap_push. rewrite mirror_cap_get, <- mirror_cap_set. reflexivity.
+Qed.
+
+Lemma mirror_cap_pop : forall g c, cap_pop g (mirror_caps n c) = mirror_caps n (cap_pop g c).
+Proof.
+  intros g c. unfold cap_pop. rewrite mirror_cap_get, <- mirror_cap_set. f_equal.
+  destruct (cap_get g c); reflexivity.
+Qed.
+
+Lemma mirror_is_matched : forall g c, is_matched g (mirror_caps n c) = is_matched g c.
+Proof. intros g c. unfold is_matched. rewrite mirror_cap_get. destruct (cap_get g c); reflexivity. Qed.
+
+Lemma mirror_span_span : forall a b, mirror_span n (span a b) = span (n - a) (n - b).
+Proof. intros a b. unfold mirror_span, span. cbn [fst snd]. f_equal; lia. Qed.
+
+Lemma mirror_cap_get_ok : forall g c, caps_ok n c -> Forall (span_ok n) (cap_get g c).
+Proof.
+  intros g c Hc. induction Hc as [|[g' l] c Hl Hc IH]; [constructor|].
+  cbn [cap_get]. destruct (g =? g'); assumption.
+Qed.
+
+Lemma mirror_cap_set_ok : forall g l c, Forall (span_ok n) l -> caps_ok n c -> caps_ok n (cap_set g l c).
+Proof.
+  intros g l c Hl Hc. induction Hc as [|[g' l'] c Hl' Hc IH].
+  - constructor; [assumption|constructor].
+  - cbn [cap_set]. destruct (g =? g'); constructor; assumption.
+Qed.
+
+Lemma mirror_cap_push_ok : forall g iv c, span_ok n iv -> caps_ok n c -> caps_ok n (cap_push g iv c).
+Proof.
+  intros g iv c Hiv Hc. unfold cap_push. apply mirror_cap_set_ok; [|assumption].
+  constructor; [assumption|]. now apply mirror_cap_get_ok.
+Qed.
+
+Lemma mirror_cap_pop_ok : forall g c, caps_ok n c -> caps_ok n (cap_pop g c).
+Proof.
+  intros g c Hc. unfold cap_pop. apply mirror_cap_set_ok; [|assumption].
+  pose proof (mirror_cap_get_ok g c Hc) as H. destruct (cap_get g c); [constructor|].
+  cbn [tl]. now inversion H.
+Qed.
+
+Lemma mirror_span_ok : forall a b, 0 <= a <= n -> 0 <= b <= n -> span_ok n (span a b).
+Proof. intros a b Ha Hb. unfold span_ok, span. cbn [fst snd]. lia. Qed.
+
+Lemma mirror_sem_ref : forall o g s, st_ok e s ->
+  sem_ref e' (flip_opt o) g (mirror_st e s) = map (mirror_st e) (sem_ref e o g s).
+Proof.
+  intros o g s [Hp Hc]. unfold sem_ref. cbn [pos caps mirror_st ecma mirror_env].
+  rewrite mirror_cap_get. pose proof (mirror_cap_get_ok g _ Hc) as Hg.
+  destruct (cap_get g (caps s)) as [|[i len] rest].
+  - cbn [map]. destruct (ecma e); reflexivity.
+  - cbn [map mirror_span fst snd]. inversion Hg as [|x y Hiv _]; subst.
+    destruct Hiv as [Hi [Hlen Hil]]. cbn [fst snd] in *.
+    rewrite mirror_avail, flip_is_rtl, flip_is_ci, mirror_dir.
+    destruct (avail e o (pos s) <? len) eqn:E; [reflexivity|].
+    assert (Hst : ref_match_at e' (is_ci o) (Z.to_nat len) (n - i - len)
+                    (if negb (is_rtl o) then n - pos s - len else n - pos s)
+                  = ref_match_at e (is_ci o) (Z.to_nat len) i (if is_rtl o then pos s - len else pos s)).
+    { unfold avail in E. replace len with (Z.of_nat (Z.to_nat len)) at 2 3 by lia.
+      destruct (is_rtl o); cbn [negb].
+      - replace (n - pos s) with (n - (pos s - len) - Z.of_nat (Z.to_nat len)) by lia.
+        apply mirror_ref_match_at; lia.
+      - apply mirror_ref_match_at; lia. }
+    rewrite Hst.
+    destruct (ref_match_at e (is_ci o) (Z.to_nat len) i (if is_rtl o then pos s - len else pos s));
+      [|reflexivity].
+    cbn [map]. rewrite mirror_with_pos. do 2 f_equal. lia.
+Qed.
+
+Lemma mirror_sem_ref_ok : forall o g s, st_ok e s -> Forall (st_ok e) (sem_ref e o g s).
+Proof.
+  intros o g s Hs. unfold sem_ref. pose proof (mirror_cap_get_ok g _ (proj2 Hs)) as Hg.
+  destruct (cap_get g (caps s)) as [|[i len] rest].
+  - destruct (ecma e); repeat constructor; apply Hs.
+  - inversion Hg as [|x y Hiv _]; subst. destruct Hiv as [Hi [Hlen Hil]]. cbn [fst snd] in *.
+    destruct (avail e o (pos s) <? len) eqn:E; [constructor|].
+    destruct (ref_match_at _ _ _ _ _); constructor; [|constructor].
+    apply mirror_with_pos_ok; [assumption|].
+    destruct Hs as [Hp _]. unfold avail, dir in *. destruct (is_rtl o); lia.
+Qed.
+
+(* --- anchors --- *)
+Lemma mirror_is_boundary : forall w i, 0 <= i <= n ->
+  is_boundary e' w (n - i) = is_boundary e w i.
+Proof.
+  intros w i Hi. unfold is_boundary. rewrite mirror_tlen. rewrite xorb_comm. f_equal.
+  - destruct (0 <? i) eqn:E.
+    + replace (n - i <? n) with true by lia. cbn [andb].
+      rewrite mirror_char_at by lia. do 2 f_equal. lia.
+    + replace (n - i <? n) with false by lia. reflexivity.
+  - destruct (i <? n) eqn:E.
+    + replace (0 <? n - i) with true by lia. cbn [andb].
+      rewrite mirror_char_at by lia. do 2 f_equal. lia.
+    + replace (0 <? n - i) with false by lia. reflexivity.
+Qed.
+
+Lemma mirror_anchor_ok : forall a p, 0 <= p <= n -> a <> AEndZ ->
+  anchor_ok e' (flip_anchor a) (n - p) = anchor_ok e a p.
+Proof.
+  intros a p Hp Ha. destruct a; cbn [flip_anchor anchor_ok]; try congruence;
+    rewrite ?mirror_tlen, ?mirror_is_boundary by lia; try reflexivity.
+  - (* Bol -> Eol *)
+    destruct (p <=? 0) eqn:E.
+    + replace (n <=? n - p) with true by lia. reflexivity.
+    + replace (n <=? n - p) with false by lia. cbn [orb].
+      rewrite mirror_char_at by lia. do 2 f_equal. lia.
+  - (* Eol -> Bol *)
+    destruct (n <=? p) eqn:E.
+    + replace (n - p <=? 0) with true by lia. reflexivity.
+    + replace (n - p <=? 0) with false by lia. cbn [orb].
+      rewrite mirror_char_at by lia. do 2 f_equal. lia.
+  - (* Beginning -> End *) lia.
+  - (* Start *) cbn [tstart mirror_env]. lia.
+  - (* End -> Beginning *) lia.
+Qed.
+
+(* RE2 / ECMAScript: EndZ is End *)
+Lemma mirror_endz_strict_is_end : forall p, endz_strict e = true ->
+  anchor_ok e AEndZ p = anchor_ok e AEnd p.
+Proof. intros p H. cbn [anchor_ok]. rewrite H. destruct (1 <? n - p) eqn:E; lia. Qed.
+
+End Leaves2.
